@@ -594,6 +594,14 @@ class Judge:
                               present=sorted(k for k in ls if k.startswith(base))[:6])
                 elif loc.err_partial and base + '_error/partial.txt' not in ls:
                     self.disc('C05', 'I-set-aside', op['i'], f'{loc.slug}: the set-aside directory does not hold the failed run\'s work', present=sorted(k for k in ls if k.startswith(base))[:6])
+                elif loc.err_partial and loc.err_partial is not True:
+                    # the LATEST failed attempt's work is what was set aside (anywhere under a <key>_error* directory)
+                    want = f'partial {loc.err_partial}'.encode()
+                    want = [len(want), V.sha(want)]
+                    have = [v for k, v in ls.items() if k.startswith(base + '_error') and k.endswith('/partial.txt')]
+                    if want not in have:
+                        self.disc('C05', 'I-set-aside', op['i'], f'{loc.slug}: the work directory of the latest failed run was not set aside (an earlier failure\'s is there)',
+                                  present=sorted(k for k in ls if k.startswith(base))[:6])
                 if loc.state != 'complete' and base in ls:
                     self.disc('C05', 'I-visible', op['i'], f'{loc.slug}: a directory result is published although its run failed', present=sorted(k for k in ls if k.startswith(base))[:6])
         exp = op.get('expect')
@@ -833,7 +841,8 @@ class Eval:
                     base = loc.stage if loc.stage_exact else (rec or {}).get('resumed_from', 0)
                     loc.stage = min(base + 1, loc.steps)
                     loc.stage_exact = True
-                self._failed(it, ob, loc, started=True, set_aside=('partial' if fault[0] == 'raise_before_return' else True))
+                self._failed(it, ob, loc, started=True, set_aside=('partial' if fault[0] == 'raise_before_return' else True),
+                             partial_n=(rec or {}).get('partial'))
                 return 'fail'
         # success
         if loc is not None:
@@ -869,7 +878,7 @@ class Eval:
             }
         loc.last_run = lr
 
-    def _failed(self, it, ob, loc, started, set_aside=True):
+    def _failed(self, it, ob, loc, started, set_aside=True, partial_n=None):
         ob.mem = False
         if loc is not None:
             loc.tainted = True     # a run of it failed: what is asked of later requests is C05's "always recovers"
@@ -881,7 +890,7 @@ class Eval:
             loc.last_run = dict(loc.last_run, log_valid=False)
         if loc is not None and it.kind == 'dir' and started:
             loc.err_dir = True
-            loc.err_partial = bool(set_aside == 'partial')
+            loc.err_partial = (partial_n or True) if set_aside == 'partial' else False
 
     def _peek_runs_next(self, it, name):
         """does the observed invocation stream continue with a run belonging to `name` (or, for run-argument style, to
